@@ -29,6 +29,7 @@ Decides:
                            non-UTF-8 input; nothing lossy can reach a value (shared with C02).
  K4b retry            the adjacent-command retry should look at the failure it replaces (it does not: known finding, a final conversion
                            failure inside an adjacent command can be replaced by the retry's success and lose its text).
+ K5c closures          the same exit rule holds inside the closure handed to from_fn (collect / many): no test of State::is_empty() or of positions.
 Does not decide: which error survives for a particular nesting inside alternatives."""
 import re
 from core import *
